@@ -19,6 +19,8 @@ import (
 	"sort"
 	"strconv"
 	"strings"
+	"sync"
+	"syscall"
 	"time"
 
 	"rare/cmd/helpers"
@@ -30,10 +32,12 @@ import (
 )
 
 const kfBadPattern = "C06-bad-pattern"
+const kfGunzipRewind = "C06-gunzip-rewind"
 
 type c06Ent struct {
 	Path string `json:"path"`           // relative to the tree root, '/' separated
 	Dir  bool   `json:"dir,omitempty"`  // directory (else regular file)
+	Fifo bool   `json:"fifo,omitempty"` // named pipe: a writer writes data_hex into it once, when somebody opens it for reading
 	Data string `json:"data_hex"`       // bytes on disk
 	Kind string `json:"kind,omitempty"` // how the bytes were made (plain, gz, gz-trunc, ...): documentation only
 }
@@ -146,12 +150,135 @@ func makeTree(root string, tree []c06Ent) error {
 		if err := os.MkdirAll(filepath.Dir(p), 0o755); err != nil {
 			return err
 		}
+		if e.Fifo {
+			if err := syscall.Mkfifo(p, 0o644); err != nil {
+				return err
+			}
+			continue
+		}
 		data, _ := hex.DecodeString(e.Data)
 		if err := os.WriteFile(p, data, 0o644); err != nil {
 			return err
 		}
 	}
 	return nil
+}
+
+// ---- named pipes: one writer per FIFO; it blocks until somebody opens the pipe for reading
+type fifoWriters struct {
+	wg    sync.WaitGroup
+	mu    sync.Mutex
+	paths []string
+	done  map[string]bool
+}
+
+func startWriters(root string, tree []c06Ent) *fifoWriters {
+	w := &fifoWriters{done: map[string]bool{}}
+	for _, e := range tree {
+		if !e.Fifo {
+			continue
+		}
+		p := filepath.Join(root, filepath.FromSlash(e.Path))
+		data, _ := hex.DecodeString(e.Data)
+		w.paths = append(w.paths, p)
+		w.wg.Add(1)
+		go func() {
+			defer w.wg.Done()
+			if f, err := os.OpenFile(p, os.O_WRONLY, 0); err == nil {
+				f.Write(data) // EPIPE when the reader goes away early
+				f.Close()
+			}
+			w.mu.Lock()
+			w.done[p] = true
+			w.mu.Unlock()
+		}()
+	}
+	return w
+}
+
+// finish releases the writers of pipes nobody opened (a reader that opens without blocking and closes again)
+func (w *fifoWriters) finish() {
+	for _, p := range w.paths {
+		w.mu.Lock()
+		d := w.done[p]
+		w.mu.Unlock()
+		if !d {
+			if fd, err := syscall.Open(p, syscall.O_RDONLY|syscall.O_NONBLOCK, 0); err == nil {
+				time.Sleep(20 * time.Millisecond)
+				syscall.Close(fd)
+			}
+		}
+	}
+	ch := make(chan bool, 1)
+	go func() { w.wg.Wait(); ch <- true }()
+	select {
+	case <-ch:
+	case <-time.After(3 * time.Second):
+	}
+}
+
+// the paths GlobExpand would send (no file is opened): used only to keep every pipe mentioned at most once,
+// since a pipe, unlike a file, cannot be read twice
+func mentionCounts(root string, in c06In) map[string]int {
+	cnt := map[string]int{}
+	if useStdin(in) {
+		return cnt
+	}
+	cwd, _ := os.Getwd()
+	os.Chdir(root)
+	defer os.Chdir(cwd)
+	for _, a := range in.Args {
+		if fi, err := os.Stat(a); in.Recursive && err == nil && fi.IsDir() {
+			filepath.Walk(a, func(p string, info os.FileInfo, err error) error {
+				if err == nil && !info.IsDir() {
+					cnt[filepath.Clean(p)]++
+				}
+				return nil
+			})
+			continue
+		}
+		if ms, err := filepath.Glob(a); err == nil && len(ms) > 0 {
+			for _, m := range ms {
+				cnt[filepath.Clean(m)]++
+			}
+		} else {
+			cnt[filepath.Clean(a)]++
+		}
+	}
+	return cnt
+}
+
+// prepare builds the tree; pipes mentioned more than once become regular files (in the returned description too)
+func prepare(root string, in c06In) (c06In, *fifoWriters, map[string]int) {
+	hasFifo := false
+	for _, e := range in.Tree {
+		hasFifo = hasFifo || e.Fifo
+	}
+	die := func(err error) {
+		fmt.Fprintln(os.Stderr, "c06: cannot build tree:", err)
+		os.Exit(2)
+	}
+	if err := makeTree(root, in.Tree); err != nil {
+		die(err)
+	}
+	cnt := map[string]int{}
+	if hasFifo {
+		cnt = mentionCounts(root, in)
+		tree := append([]c06Ent(nil), in.Tree...)
+		changed := false
+		for i, e := range tree {
+			if e.Fifo && cnt[e.Path] > 1 {
+				tree[i].Fifo, changed = false, true
+			}
+		}
+		if changed {
+			in.Tree = tree
+			if err := makeTree(root, in.Tree); err != nil {
+				die(err)
+			}
+		}
+	}
+	return in, startWriters(root, in.Tree), cnt
 }
 
 func useStdin(in c06In) bool { return len(in.Args) == 0 || in.Args[0] == "-" }
@@ -380,6 +507,7 @@ type oracle struct {
 	gunzip   bool
 	badPat   bool
 	info     map[string]int
+	fifo     map[string][]byte // cleaned relative path -> what its writer writes
 }
 
 func gunzipOracle(c []byte) string {
@@ -414,6 +542,8 @@ func (o *oracle) subtree(p string, deep bool) string {
 		var t string
 		if e.IsDir() {
 			t = o.subtree(q, true)
+		} else if e.Type()&os.ModeNamedPipe != 0 {
+			t = o.file(o.fifo[filepath.Clean(q)])
 		} else {
 			c, _ := os.ReadFile(q)
 			t = o.file(c)
@@ -437,6 +567,9 @@ func (o *oracle) stat(p string, deep bool) {
 	case fi.IsDir():
 		o.fs = append(o.fs, fmt.Sprintf("(%s,Some (%s))", HS(p), o.subtree(p, deep)))
 		o.info["dir"]++
+	case fi.Mode()&os.ModeNamedPipe != 0:
+		o.fs = append(o.fs, fmt.Sprintf("(%s,Some (%s))", HS(p), o.file(o.fifo[filepath.Clean(p)])))
+		o.info["file"]++
 	default:
 		c, _ := os.ReadFile(p)
 		o.fs = append(o.fs, fmt.Sprintf("(%s,Some (%s))", HS(p), o.file(c)))
@@ -445,7 +578,12 @@ func (o *oracle) stat(p string, deep bool) {
 }
 
 func computeOracles(root string, in c06In) *oracle {
-	o := &oracle{fsSeen: map[string]bool{}, globSeen: map[string]bool{}, gzSeen: map[string]bool{}, gunzip: in.Gunzip, info: map[string]int{}}
+	o := &oracle{fsSeen: map[string]bool{}, globSeen: map[string]bool{}, gzSeen: map[string]bool{}, gunzip: in.Gunzip, info: map[string]int{}, fifo: map[string][]byte{}}
+	for _, e := range in.Tree {
+		if e.Fifo {
+			o.fifo[e.Path], _ = hex.DecodeString(e.Data)
+		}
+	}
 	if useStdin(in) {
 		return o
 	}
@@ -578,10 +716,7 @@ func c06Case(in c06In) Case {
 	}
 	caseNo++
 	root := filepath.Join(workdir(), fmt.Sprintf("t%d", caseNo))
-	if err := makeTree(root, in.Tree); err != nil {
-		fmt.Fprintln(os.Stderr, "c06: cannot build tree:", err)
-		os.Exit(2)
-	}
+	in, writers, mcount := prepare(root, in)
 	defer os.RemoveAll(root)
 	var out c06Out
 	if in.StdinFail == "reader" {
@@ -589,6 +724,7 @@ func c06Case(in c06In) Case {
 	} else {
 		out = runRare(root, in)
 	}
+	writers.finish()
 	o := computeOracles(root, in)
 
 	lines := make([]string, len(out.Lines))
@@ -687,6 +823,31 @@ func c06Case(in c06In) Case {
 		for _, a := range in.Args[1:] {
 			if a == "-" {
 				add("dash-not-first", false)
+			}
+		}
+	}
+	for _, e := range in.Tree {
+		if !e.Fifo || mcount[e.Path] != 1 {
+			continue
+		}
+		how := "fifo:glob-match"
+		for _, a := range in.Args {
+			if filepath.Clean(a) == e.Path {
+				how = "fifo:argument"
+			} else if fi, err := os.Stat(filepath.Join(root, a)); in.Recursive && err == nil && fi.IsDir() && strings.HasPrefix(e.Path, filepath.Clean(a)+"/") {
+				how = "fifo:below--R-directory"
+			}
+		}
+		add(how, true)
+		data, _ := hex.DecodeString(e.Data)
+		if in.Gunzip {
+			if _, err := gzip.NewReader(bytes.NewReader(data)); err != nil {
+				add("fifo:-z-not-gzip", true)
+				if len(data) > 0 { // the rewind after the failed gzip probe is a Seek, which a pipe refuses
+					add("kf:"+kfGunzipRewind, false)
+				}
+			} else {
+				add("fifo:-z-gzip", true)
 			}
 		}
 	}
